@@ -55,10 +55,16 @@ class Walked(Exception):
 _orig_walk = antlr4.ParseTreeWalker.walk
 
 
-def loads_syntax_stage(text):
-    """Run blackbird.loads; report (stage_passed, exc_type_name, message).
-    stage_passed: the parse finished and the tree walker was entered."""
+def loads_syntax_stage(text, via="loads"):
+    """Run blackbird.loads (or, via="load", blackbird.load on a UTF-8 file holding the text); report
+    (stage_passed, exc_type_name, message).  stage_passed: the parse finished and the tree walker was entered."""
     state = {"walk": False}
+    path = None
+    if via == "load":
+        import os, tempfile
+        fd, path = tempfile.mkstemp(suffix=".xbb", prefix="bbsyn_")
+        with os.fdopen(fd, "wb") as fh:
+            fh.write(text.encode("utf-8"))
 
     def walk(self, listener, t):
         state["walk"] = True
@@ -68,7 +74,10 @@ def loads_syntax_stage(text):
         with warnings.catch_warnings():
             warnings.simplefilter("ignore")
             try:
-                blackbird.loads(text)
+                if path is None:
+                    blackbird.loads(text)
+                else:
+                    blackbird.load(path)
                 return (state["walk"], None, "")
             except Walked:
                 return (True, None, "")
@@ -76,6 +85,9 @@ def loads_syntax_stage(text):
                 return (state["walk"], type(e).__name__, str(e.args[0]) if e.args else str(e))
     finally:
         antlr4.ParseTreeWalker.walk = _orig_walk
+        if path is not None:
+            import os
+            os.remove(path)
 
 
 _POS = re.compile(r"line (\d+):(\d+)")
